@@ -1,5 +1,14 @@
 package props
 
-import "math/big"
+import (
+	"math/big"
+
+	"github.com/zenon-network/go-zenon/common/types"
+	"github.com/zenon-network/go-zenon/vm/embedded/definition"
+)
 
 var bigOne = big.NewInt(1)
+
+func fuseData(ben types.Address) []byte {
+	return definition.ABIPlasma.PackMethodPanic(definition.FuseMethodName, ben)
+}
